@@ -282,33 +282,9 @@ func (pt *prattTables) extractSymbols(c *Ctx, r *Result) bool {
 		}
 	}
 	// keywords
-	for _, si := range collectSwitches(pt.pkg) {
-		if si.Fn != "lookupKeyword" {
-			continue
-		}
-		for _, st := range si.Stmt.Body.List {
-			cc := st.(*ast.CaseClause)
-			var ret ast.Expr
-			for _, s := range cc.Body {
-				if rs, ok := s.(*ast.ReturnStmt); ok && len(rs.Results) == 1 {
-					ret = rs.Results[0]
-				}
-			}
-			if ret == nil {
-				continue
-			}
-			tv, ok := pt.constVal(ret)
-			if !ok {
-				continue
-			}
-			for _, e := range cc.List {
-				if kv := pt.pkg.TypesInfo.Types[e]; kv.Value != nil && kv.Value.Kind() == constant.String {
-					w := constant.StringVal(kv.Value)
-					if w == "and" || w == "or" || w == "in" {
-						put(w, tv)
-					}
-				}
-			}
+	for w, tv := range stringCaseTable(c.W.Fn("jparse.lookupKeyword")) {
+		if w == "and" || w == "or" || w == "in" {
+			put(w, tv)
 		}
 	}
 	r.Count("PRATT lexemes", len(pt.lexTok))
